@@ -544,7 +544,14 @@ fn interleave_fixed_size_list(
         }
     };
 
-    let array = FixedSizeListArray::new(field.clone(), size, interleaved_values, interleaved.nulls);
+    // pass the length explicitly: it cannot be derived from the child when `size` is zero
+    let array = FixedSizeListArray::try_new_with_length(
+        field.clone(),
+        size,
+        interleaved_values,
+        interleaved.nulls,
+        indices.len(),
+    )?;
     Ok(Arc::new(array))
 }
 
